@@ -187,3 +187,48 @@ CONTRACTS[L + "c06_same_meaning_same_chord"] = dict(
     notes="the lemma's domain is the enumerated set of key pairs (no completeness obligation); pairs with different chord sizes cannot have the same meaning unless the tables are wrong; those are "
           "covered by c06_shorthand_builds_formula (each key against the spec formula)",
     properties=["C06"], battery="shorthand_pairs_root")
+
+
+# ------------------------------------------------------------------ C05
+from mingus.core import scales  # noqa: E402
+from contracts.core_scales import KEY_TONICS_MAJOR, KEY_TONICS_MINOR, PATTERN  # noqa: E402
+
+SCALES = dict((n, getattr(scales, n)) for n in PATTERN)
+_ANY = ["Ionian", "Dorian", "Phrygian", "Lydian", "Mixolydian", "Aeolian", "Locrian", "WholeTone", "Octatonic"]
+_KEYED = [("Major", KEY_TONICS_MAJOR), ("HarmonicMajor", KEY_TONICS_MAJOR), ("NaturalMinor", KEY_TONICS_MINOR),
+          ("HarmonicMinor", KEY_TONICS_MINOR), ("Bachian", KEY_TONICS_MINOR)]
+
+
+def c05_descending_is_reverse(cls, tonic, n):
+    s = SCALES[cls](tonic, n)
+    return (s.ascending(), s.descending())
+
+
+def c05_degrees(cls, tonic, n, k):
+    s = SCALES[cls](tonic, n)
+    return (s.degree(k), s.ascending(), s.degree(k, "d"), s.descending(), len(s))
+
+
+_SPLIT_ANY = [{"bind": {"cls": c}} for c in _ANY]
+_SPLIT_KEYED = [{"bind": {"cls": c, "tonic": t}} for c, ts in _KEYED for t in ts]
+_SPLIT_EXC = [{"bind": {"cls": c, "tonic": t}} for c in ("MelodicMinor", "MinorNeapolitan") for t in KEY_TONICS_MINOR]
+
+CONTRACTS.update({
+    L + "c05_descending_is_reverse": dict(
+        params={"cls": "str", "tonic": "str", "n": "int"},
+        requires="is_name(tonic) and n >= 1",
+        returns="(list[str],list[str])",
+        ensures=[("descending-is-the-exact-reverse", "list_reverse_of(result[1], result[0])")],
+        split=_SPLIT_ANY + _SPLIT_KEYED, split_is_domain=True, skip_callee_clauses=["*"],
+        notes="domain: the 14 classes whose descent is the reverse (all but melodic minor, minor Neapolitan, chromatic)",
+        properties=["C05"], battery="scale_ctor"),
+    L + "c05_degrees": dict(
+        params={"cls": "str", "tonic": "str", "n": "int", "k": "int"},
+        requires="is_name(tonic) and n >= 1 and 1 <= k and k <= len(SCALE_PATTERN[cls]) * n",
+        returns="(str,list[str],str,list[str],int)",
+        ensures=[("ascending-degree", "result[0] == result[1][k - 1]"),
+                 ("descending-degree", "result[2] == result[3][len(result[3]) - k]"),
+                 ("length-follows-the-list", "result[4] == len(result[1]) and result[4] == len(SCALE_PATTERN[cls]) * n + 1")],
+        split=_SPLIT_ANY + _SPLIT_KEYED + _SPLIT_EXC, split_is_domain=True, skip_callee_clauses=["*"],
+        properties=["C05"], battery="scale_ctor_k"),
+})
